@@ -1961,6 +1961,12 @@ func codeSpecs() []*fnSpec {
 		ctxSpec("rootContext", "PopDir", "root_PopDir", "{α : Type} (self : α)", "α", "", map[string]string{"c": "self"}),
 		ctxSpec("dirContext", "PopDir", "dir_PopDir", "{α : Type} (selfPop : α)", "α", "", map[string]string{"c.Pop()": "selfPop"}),
 		ctxSpec("prefixContext", "PopDir", "prefix_PopDir", "{α : Type} (parentPopDir : α)", "α", "", map[string]string{"c.parent.PopDir()": "parentPopDir"}),
+		// the constructor: a root context holds the cleaned output path and the parameters it was given; no parent, the debugger as it is
+		{file: "build_context.go", recv: "", name: "Context", lean: "context_Context", pn: []string{"d", "params", "output"},
+			binders: "(params : Nat) (output : Pgs.Bytes)", ret: "Pgs.C18.Ctx",
+			exprs: map[string]string{"nil": "()", "d": "()", "params": "params", "output": "output"},
+			calls: map[string]string{"filepath.Clean": "Pgs.FilePath.clean", "lit:rootContext": "mkRootContext dirContext params",
+				"lit:dirContext": "rootDirPart prefixContext p", "lit:prefixContext": "rootPrefixPart parent d"}},
 		ctxSpec("", "initPrefixContext", "initPrefixContext", "(c : Pgs.C18.Ctx) (d : List Pgs.Bytes) (pfx : Pgs.Bytes)", "Pgs.C18.Ctx", "",
 			map[string]string{"c": "c", "d": "d", "prefix": "pfx"}),
 		ctxSpec("", "initDirContext", "initDirContext", "(c : Pgs.C18.Ctx) (d : List Pgs.Bytes) (dir : Pgs.Bytes)", "Pgs.C18.Ctx", "",
@@ -2356,6 +2362,16 @@ func goParamSteps(repo string) (string, error) {
 	return t + "/-- lang/go/parameters.go: the parameter keys and values -/\ndef goParamConsts : List (String × String) :=\n  [" + strings.Join(rows, ", ") + "]\n", nil
 }
 
+// generator.go / init_option.go: how a Generator is put together
+func initSteps(repo string) (string, error) {
+	ts := []stepTarget{{"generator.go", "", "Init"}}
+	for _, n := range []string{"ProtocInput", "ProtocOutput", "DebugMode", "DebugEnv", "MutateParams", "FileSystem", "BiDirectional", "SupportedFeatures"} {
+		ts = append(ts, stepTarget{"init_option.go", "", n})
+	}
+	ts = append(ts, stepTarget{"persister.go", "", "newPersister"}, stepTarget{"persister.go", "stdPersister", "SetDebugger"})
+	return stepTable(repo, "initSteps", "generator.go, init_option.go, persister.go", ts)
+}
+
 // lang/go/package.go: the pattern whose matches are replaced by "_" in package names
 func packagePattern(repo string) (string, error) {
 	f := parse(filepath.Join(repo, "lang/go/package.go"))
@@ -2646,6 +2662,13 @@ func stepTable(repo, defName, what string, targets []stepTarget) (string, error)
 				case *ast.ReturnStmt:
 					if len(x.Results) == 0 {
 						steps = append(steps, "return")
+					} else if fl, isLit := x.Results[0].(*ast.FuncLit); isLit && len(x.Results) == 1 {
+						// `return func(...) { ... }`: the steps of the function returned, bracketed
+						steps = append(steps, "return func {")
+						if err := walk(fl.Body.List); err != nil {
+							return err
+						}
+						steps = append(steps, "}")
 					} else if len(x.Results) == 1 {
 						if c, ok := x.Results[0].(*ast.CallExpr); ok {
 							steps = append(steps, "return "+callText(c))
@@ -2827,6 +2850,9 @@ func genCode(repo string) (map[string]string, error) {
 	b.WriteString("/-- the struct literals of build_context.go: a prefixContext is (parent, debugger); the debugger is the list of its prefixes -/\n")
 	b.WriteString("def mkPrefixContext (parent : Pgs.C18.Ctx) (d : List Pgs.Bytes) : Pgs.C18.Ctx := .pre parent d\n")
 	b.WriteString("def mkDirContext (pc : Pgs.C18.Ctx) (p : Pgs.Bytes) : Pgs.C18.Ctx := match pc with | .pre parent d => .dir parent p d | c => c\n")
+	b.WriteString("/-- the struct literals of `Context`: the root has no parent and holds the debugger unprefixed; what it adds is the path and the parameters -/\n")
+	b.WriteString("def rootPrefixPart (parent : Unit) (d : Unit) : Unit := ()\ndef rootDirPart (pc : Unit) (p : Pgs.Bytes) : Pgs.Bytes := p\n")
+	b.WriteString("def mkRootContext (p : Pgs.Bytes) (params : Nat) : Pgs.C18.Ctx := .root p params\n")
 	b.WriteString("def debuggerPush (d : List Pgs.Bytes) (pfx : Pgs.Bytes) : List Pgs.Bytes := d ++ [pfx]\n\n")
 	b.WriteString("end Pgs.GenCode\n")
 	files["CodePrelude.lean"] = b.String()
@@ -2861,7 +2887,7 @@ func genCode(repo string) (map[string]string, error) {
 	tables := []struct {
 		name string
 		gen  func(string) (string, error)
-	}{{"nameHelpers", nameHelpers}, {"acceptOrders", acceptOrders}, {"typePredicates", typePredicates}, {"hydratePhases", hydratePhases}, {"childAtPaths", childAtPaths}, {"workflowSteps", workflowSteps}, {"commentSteps", commentSteps}, {"persistSteps", persistSteps}, {"astEntrySteps", astEntrySteps}, {"packagePattern", packagePattern}, {"moduleSteps", moduleSteps}, {"importSteps", importSteps}, {"goNameSteps", goNameSteps}, {"sciSteps", sciSteps}, {"walkSteps", walkSteps}, {"goParamSteps", goParamSteps}}
+	}{{"nameHelpers", nameHelpers}, {"acceptOrders", acceptOrders}, {"typePredicates", typePredicates}, {"hydratePhases", hydratePhases}, {"childAtPaths", childAtPaths}, {"workflowSteps", workflowSteps}, {"commentSteps", commentSteps}, {"persistSteps", persistSteps}, {"astEntrySteps", astEntrySteps}, {"packagePattern", packagePattern}, {"moduleSteps", moduleSteps}, {"importSteps", importSteps}, {"goNameSteps", goNameSteps}, {"sciSteps", sciSteps}, {"walkSteps", walkSteps}, {"goParamSteps", goParamSteps}, {"initSteps", initSteps}}
 	for _, g := range tables {
 		t, err := g.gen(repo)
 		if err != nil {
